@@ -1,7 +1,7 @@
 (* Command interpreter shared by the extracted binary and by in-Coq evaluation:
    one s-expression command per line in, one s-expression answer out. *)
 From Coq Require Import String Ascii List ZArith NArith Bool.
-From OL Require Import Sexp PyAst Unparse Config Namespace Lower.
+From OL Require Import Sexp PyAst Unparse Config Namespace Lower Cli.
 Import ListNotations.
 Open Scope string_scope.
 
@@ -29,6 +29,12 @@ Definition run_cmd (x : sexp) : sexp :=
       | _, _, _, None, _ => bad "decode-symtab"
       | _, _, _, _, None => bad "decode-block"
       | _, _, _, _, _ => bad "decode-config"
+      end
+  | L [A "cli"; L cs; unp; out] =>
+      match mapM bytes_of cs, opt_of ident_of unp, bool_of out with
+      | Some cs', Some unp', Some out' =>
+          let r := cli cs' unp' out' in ok (L [sx_verdict (fst r); L (map sx_effect (snd r))])
+      | _, _, _ => bad "decode-cli"
       end
   | L [A "cfg-hist"; L acts] =>
       match mapM action_of acts with
